@@ -22,16 +22,16 @@ import (
 
 // Dialogue is a complete case descriptor.
 type Dialogue struct {
-	Auth       string         `json:"auth"`   // telnet | ssh
-	Driver     string         `json:"driver"` // generic | network | netconf
-	Host       string         `json:"host"`
-	User       string         `json:"user"`
-	Password   string         `json:"password"`
-	Passphrase string         `json:"passphrase,omitempty"`
+	Auth       string `json:"auth"`   // telnet | ssh
+	Driver     string `json:"driver"` // generic | network | netconf
+	Host       string `json:"host"`
+	User       string `json:"user"`
+	Password   string `json:"password"`
+	Passphrase string `json:"passphrase,omitempty"`
 	// KeyPath: the session is configured with a private key (ssh type). User, Password and Passphrase
 	// may each be empty: the credential is not configured (a client asked for it can only send an
 	// empty line).
-	KeyPath string `json:"key_path,omitempty"`
+	KeyPath    string         `json:"key_path,omitempty"`
 	Steps      []Step         `json:"steps"`
 	NL         string         `json:"nl"`
 	EchoUser   bool           `json:"echo_user,omitempty"`
